@@ -12,11 +12,12 @@ permissions attached to that key allow its method and path; otherwise it is refu
 Every theorem below is for ALL handlers / configurations, listen addresses, module route tables,
 id indexes, requests, handler effects `H`, initial states and recursion budgets (= any number of
 /id/ redirects).  Two clauses do not hold of the code as it is; their negations are proved in
-`Witness.lean` and the provable parts are the `_partial` theorems here:
+`Witness.lean` (imported here so that it is built and audited with the theorems) and the provable parts are the `_partial` theorems here:
   * "websocket upgrades are always refused"            (case variants, later header values)
   * "missing Origin/Referer is refused"                (when an allowed origin has an empty host)
 -/
 import CaddyModel.C13.Lemmas
+import CaddyModel.C13.Witness
 
 namespace CaddyModel.C13
 
@@ -267,10 +268,8 @@ theorem serve_never_runs_out_of_fuel (H : Bytes → Req → σ → σ) (h : Hand
 
 section Examples
 
-def exAddr : Addr := ⟨str "tcp", str "localhost", 2019, .notIP⟩
 def exLan : Addr := ⟨str "tcp", str "192.168.1.5", 2019, .other⟩
 def exCfg : AdminCfg := ⟨none, true, none⟩
-def emptyUrl : Url := ⟨true, [], []⟩
 /-- `POST /id/item` with Host evil.com, Origin http://evil.com -/
 def exEvil : Req :=
   ⟨str "POST", str "evil.com", str "/id/item", [], str "http://evil.com", [], ⟨true, str "http", str "evil.com"⟩, emptyUrl, none⟩
@@ -280,7 +279,6 @@ def exGood : Req :=
    ⟨true, str "http", str "localhost:2019"⟩, emptyUrl, none⟩
 def exIdx : Index := [(str "item", str "/probe/x")]
 def exPats : List Bytes := [str "/probe/"]
-def count (_ : Bytes) (_ : Req) (n : Nat) : Nat := n + 1
 
 -- every_dispatch_is_gated / state_changes_only_through_dispatch: a request that IS served, through an
 -- /id/ redirect into a module route: two dispatches, state changed once
@@ -327,9 +325,6 @@ def exRemoteReq (m p : String) (chains : List (List Nat)) : Req :=
 example : Served (serveHTTP count (newAdminHandler exRemoteCfg exRemoteAddr true []) [] 3
     (exRemoteReq "GET" "/config/apps" [[7, 1]]) 0) := by decide
 -- … an /id/ redirect whose target the key may not access is refused at the second pass …
-example : (serveHTTP count (newAdminHandler exRemoteCfg exRemoteAddr true [])
-    [(str "x", str "/stop")] 3
-    { exRemoteReq "GET" "/id/x" [[1]] with method := str "GET" } 0).final = .refused .aclPath := by decide
 example : (serveHTTP count (newAdminHandler ⟨none, false, some [⟨[1], [⟨none, some [str "/id/"]⟩]⟩]⟩ exRemoteAddr true [])
     [(str "x", str "/stop")] 3 (exRemoteReq "GET" "/id/x" [[1]]) 0).final = .refused .aclPath := by decide
 -- remote_unlisted_identity_401: hypotheses hold for a client presenting only key 7
